@@ -301,7 +301,7 @@ ENTRY = {
     'svd.svd_incomplete': [dict(I='I[m,d]', Y='f[m]', idx='i[d+1]',
                                 idx_many='i[d]'),
                            dict(I='I[m,d]', Y='f[m]', idx='i[d+1]',
-                                idx_many='i[d]', r='int:rmax')],
+                                idx_many='i[d]', e='abs', r='int:rmax')],
     'tensors.const': [dict(n='shape', v='num:v'),
                       dict(n='shape', v='num:v', I_zero='I[k,d]'),
                       dict(n='shape', v='num:v', I_zero='I[k,d]',
